@@ -252,6 +252,7 @@ const CT_SHUTDOWN_ACK: u8 = 8;
 const CT_ERROR: u8 = 9;
 const CT_COOKIE_ECHO: u8 = 10;
 const CT_COOKIE_ACK: u8 = 11;
+const CT_SHUTDOWN_COMPLETE: u8 = 14;
 const CT_RECONFIG: u8 = 130;
 const CT_FORWARD_TSN: u8 = 192;
 
@@ -1650,6 +1651,15 @@ impl SctpInner {
                 }
                 CT_SHUTDOWN_ACK => {
                     debug!("SCTP SHUTDOWN ACK received, closing connection");
+                    self.print_stats("REMOTE_SHUTDOWN");
+                    *self.close_reason.lock() = Some("REMOTE_SHUTDOWN".into());
+                    self.set_state(SctpState::Closed);
+                }
+                CT_SHUTDOWN_COMPLETE => {
+                    // Last step of a shutdown the peer started (we answered its
+                    // SHUTDOWN with SHUTDOWN ACK above): the peer has removed the
+                    // association, so ours ends here too (RFC 4960 §9.2).
+                    debug!("SCTP SHUTDOWN COMPLETE received, closing connection");
                     self.print_stats("REMOTE_SHUTDOWN");
                     *self.close_reason.lock() = Some("REMOTE_SHUTDOWN".into());
                     self.set_state(SctpState::Closed);
